@@ -250,6 +250,15 @@ impl DocumentBuilder {
     }
 
     fn cdata_text(&mut self, content: &str, xot: &mut Xot) -> Result<NodeId, ParseError> {
+        // line ends are normalized in CDATA sections too
+        // https://www.w3.org/TR/xml/#sec-line-ends
+        let normalized;
+        let content = if content.contains('\r') {
+            normalized = content.replace("\r\n", "\n").replace('\r', "\n");
+            normalized.as_str()
+        } else {
+            content
+        };
         if let Some(last) = self.consolidate_text(content, xot) {
             return Ok(last);
         }
